@@ -583,6 +583,8 @@ void Context::resetRuntime(const Context& shell)
   }
   _breakCondition = false;
   _continueCondition = false;
+  /* the error kept by a handler that failed during an earlier call */
+  _last_error = RuntimeError();
 }
 
 }
